@@ -21,6 +21,20 @@ FastEqualsTextbook(af) == LET atk == AtkMap(af) IN \A S \in SUBSET af.args :
     /\ AdmissibleFast(af, atk, S) = Admissible(af, S) /\ CompleteFast(af, atk, S) = CompleteSet(af, S)
     /\ StableFast(af, S) = StableSet(af, S)
 
+(* ---- the grounded reduct ---- *)
+(* G = grounded extension (least fixed point of F, iterated with the linear-time FFast), Gp = what it defeats.  The complete, preferred,  *)
+(* stable, semi-stable, ideal (and grounded) extensions of a framework are exactly G \cup E' for E' an extension of the framework restricted *)
+(* to the undecided arguments args \ (G \cup Gp): ReductTheorem of MCDung (all frameworks <= 4 arguments) and spec/proofs/ReductLemma.tla  *)
+(* (TLAPS, any size; complete / stable / preferred / grounded).  Not for stage extensions (they need not contain G).  This lets the judges *)
+(* work on frameworks of any size whose undecided part has small components.                                                              *)
+RECURSIVE LfpFast(_, _, _)
+LfpFast(af, atk, S) == LET T == FFast(af, atk, S) IN IF T = S THEN S ELSE LfpFast(af, atk, T)
+GroundedFast(af) == LfpFast(af, AtkMap(af), {})
+Undecided(af, G) == af.args \ (G \cup AttackedBy(af, G))
+Reduct(af) == RestrictAF(af, Undecided(af, GroundedFast(af)))
+ReductSems == {"GR", "CO", "PR", "ST", "SST", "ID"}
+FamByReduct(af, sem) == LET G == GroundedFast(af) IN {G \cup E : E \in FamFast(RestrictAF(af, Undecided(af, G)), sem)}
+
 (* frameworks padded with sinks (arguments that attack nothing, inside the components): the complete / stable extensions are those  *)
 (* of the core, extended deterministically (a sink is in iff it is defended / unattacked by the set); LiftTheorem is checked by MCDung *)
 LiftCO(af, core, S) == S \cup {k \in af.args \ core : AttackersOf(af, k) \subseteq AttackedBy(af, S)}
